@@ -56,6 +56,98 @@ pub fn symbol_program(rng: &mut Rng) -> Vec<u8> {
     s.into_bytes()
 }
 
+
+/// Rules whose mnemonics share prefixes of different lengths (`ld{r: reg}`
+/// and `ldx` live in different buckets of the prefix index) with equal
+/// encoding sizes and optional constraints: ambiguity and failed-constraint
+/// diagnostics then list several candidates, whose order must not depend on
+/// the hash keys.
+pub fn ambiguous_program(rng: &mut Rng) -> Vec<u8> {
+    let mut s = String::new();
+    let regs = ["x", "y", "xy", "d", "dx", "a"];
+    s.push_str("#subruledef reg\n{\n");
+    let nregs = rng.range(2, regs.len());
+    for (i, r) in regs.iter().take(nregs).enumerate() {
+        s.push_str(&format!("    {} => 0x{:x}\n", r, i + 1));
+    }
+    s.push_str("}\n\n#ruledef\n{\n");
+    let mnems = ["ld", "ldx", "l", "ldxy", "ad", "add", "addx", "ldd"];
+    let nrules = rng.range(3, 8);
+    let mut rules: Vec<(&str, usize)> = Vec::new();
+    for i in 0..nrules {
+        let m = *rng.pick(&mnems);
+        let kind = rng.below(5);
+        rules.push((m, kind));
+        match kind {
+            0 => s.push_str(&format!("    {}{{r: reg}} => 0x{:02x} @ r`8\n", m, 0x10 + i)),
+            1 => s.push_str(&format!("    {} => 0x{:02x} @ 0x00\n", m, 0x30 + i)),
+            2 => s.push_str(&format!("    {} {{v: u8}} => 0x{:02x} @ v\n", m, 0x50 + i)),
+            3 => s.push_str(&format!("    {}{{r: reg}} =>\n    {{\n        assert(r < {})\n        0x{:02x} @ r`8\n    }}\n", m, rng.range(1, 3), 0x70 + i)),
+            _ => s.push_str(&format!("    {} {{v}} =>\n    {{\n        assert(v >= {})\n        0x{:02x} @ v`8\n    }}\n", m, rng.range(1, 200), 0x90 + i)),
+        }
+    }
+    s.push_str("}\n\n");
+    // instructions instantiate the rules, so they match at least one; when a
+    // glued `ld{r}` with r = x spells another rule's mnemonic `ldx`, several
+    // candidates from different prefix buckets compete
+    for _ in 0..rng.range(1, 5) {
+        let (m, kind) = *rng.pick(&rules);
+        match kind {
+            0 | 3 => s.push_str(&format!("{}{}\n", m, rng.pick(&regs[..nregs]))),
+            1 => s.push_str(&format!("{}\n", m)),
+            _ => s.push_str(&format!("{} {}\n", m, rng.below(260))),
+        }
+    }
+    s.into_bytes()
+}
+
+/// A program spread over several included files with identical layout (each
+/// starts with a same-length label at offset 0): sibling symbols then share
+/// byte ranges across files, which exposes sort keys that forget the file.
+pub fn multifile_symbols(rng: &mut Rng, disk: &mut crate::disk::Disk) -> String {
+    let n = rng.range(2, 5);
+    let dirs = ["", "inc/", "lib/"];
+    let mut root = String::from("#ruledef\n{\n    put {v: u8} => v\n}\n\n");
+    let names = ["aaa", "bbb", "ccc", "ddd", "eee"];
+    let mut order: Vec<usize> = (0..n).collect();
+    rng.shuffle(&mut order);
+    for k in order {
+        let path = format!("{}part{}.asm", rng.pick(&dirs), k);
+        let body = format!("{}:\n    put {}\n.sub:\n    put {}\nval_{} = {}\n", names[k], k + 1, k + 11, names[k], k + 21);
+        disk.add_file(&path, body.into_bytes());
+        root.push_str(&format!("#include \"{}\"\n", path));
+    }
+    if rng.chance(1, 3) {
+        root.push_str("    put undefined_thing\n");
+    }
+    disk.add_file("multi.asm", root.into_bytes());
+    "multi.asm".to_string()
+}
+
+/// A program on top of the built-in `<std>/cpu/6502.asm`, optionally with
+/// errors whose diagnostics point into the library, in listing formats that
+/// read spans of library files.
+pub fn std_program(rng: &mut Rng) -> Vec<u8> {
+    let mut s = String::from("#include \"<std>/cpu/6502.asm\"\n\nstart:\n");
+    for _ in 0..rng.range(2, 7) {
+        s.push_str(match rng.below(9) {
+            0 => "    lda #0x10\n",
+            1 => "    sta 0x2000\n",
+            2 => "    ldx #5\n",
+            3 => "    inx\n",
+            4 => "    jmp start\n",
+            5 => "    bne start\n",
+            6 => "    lda #0x1234\n",
+            7 => "    bne far\n",
+            _ => "    nop\n",
+        });
+    }
+    if rng.chance(1, 3) {
+        s.push_str("#res 300\nfar:\n    rts\n");
+    }
+    s.into_bytes()
+}
+
 /// Job `k` of the pool for this seed: a pure function of (seed, k).
 pub fn pool_job(seed: u64, k: usize, c: &Corpus) -> Job {
     let mut rng = Rng::new(seed).fork_n("c10-pool", k as u64);
@@ -77,22 +169,38 @@ pub fn pool_job(seed: u64, k: usize, c: &Corpus) -> Job {
         // generated command line (several unknown parameters, defines, groups)
         crate::c03::draw_job(&mut rng.fork("cmd"), c)
     } else if kind < 80 {
-        // generated multi-symbol program
-        let text = symbol_program(&mut rng);
+        // generated programs: many symbols / ambiguous prefixes / several
+        // files with identical layout / on top of the built-in library
         let mut disk = crate::disk::Disk::new(corpus::PROJ);
-        disk.add_file("prog.asm", text);
-        let mut spec = Spec::simple("prog.asm");
+        let root = match rng.below(8) {
+            0 | 1 | 2 => {
+                disk.add_file("prog.asm", symbol_program(&mut rng));
+                "prog.asm".to_string()
+            }
+            3 | 4 => {
+                disk.add_file("ambig.asm", ambiguous_program(&mut rng));
+                "ambig.asm".to_string()
+            }
+            5 | 6 => multifile_symbols(&mut rng, &mut disk),
+            _ => {
+                disk.add_file("on_std.asm", std_program(&mut rng));
+                "on_std.asm".to_string()
+            }
+        };
+        let mut spec = Spec::simple(&root);
         spec.groups.clear();
         for _ in 0..rng.range(1, 3) {
             let f = *rng.pick(&["symbols", "mesen-mlb", "annotated", "annotatedbin", "addrspan", "tcgame", "binary", "intelhex"]);
             let n = spec.groups.len();
             spec.groups.push(Group { format: Some(f.to_string()), out: if rng.chance(2, 3) { Some(format!("out{}.txt", n)) } else { None }, print: rng.chance(1, 5) });
         }
-        for _ in 0..rng.below(3) {
-            spec.defines.push(format!("{}={}", rng.pick(&["alpha_const", "beta_const", "UNUSED1", "UNUSED2", "zeta_const"]), rng.below(9)));
+        if root == "prog.asm" {
+            for _ in 0..rng.below(3) {
+                spec.defines.push(format!("{}={}", rng.pick(&["alpha_const", "beta_const", "UNUSED1", "UNUSED2", "zeta_const"]), rng.below(9)));
+            }
         }
         cmdline::draw_knobs(&mut rng, &mut spec);
-        Job::from_spec(&format!("symprog:{}", k), disk, spec)
+        Job::from_spec(&format!("genprog:{}:{}", root, k), disk, spec)
     } else {
         // mutant (diagnostics in odd places)
         let mut j = crate::c03::draw_job(&mut rng.fork("mut"), c);
@@ -212,13 +320,14 @@ pub fn build_plan(rng: &mut Rng, seed: u64, c: &Corpus) -> SimPlan {
                 1 => [0xffu8; 16],
                 _ => rng.bytes16(),
             };
-            ThreadPlan { keys: keys_to_hex(&k), jobs: vec![], reuse: vec![] }
+            ThreadPlan { keys: keys_to_hex(&k), jobs: vec![], reuse: vec![], offsets: vec![] }
         })
         .collect();
     for j in 0..jobs.len() {
         let t = rng.below(nthreads);
         threads[t].jobs.push(j);
         threads[t].reuse.push(rng.chance(1, 3));
+        threads[t].offsets.push(*rng.pick(&[0usize, 0, 0, 1, 2, 5]));
     }
     threads.retain(|t| !t.jobs.is_empty());
     let mut clock = Vec::new();
@@ -245,7 +354,8 @@ pub fn check_plan(plan: &SimPlan, res: &PlanResult, refs: &BTreeMap<String, Reco
         if matches!(reference.outcome, Outcome::Panic(_)) || reference.lib.panic.is_some() {
             continue; // C03's business
         }
-        let env = format!("thread {} keys {} queue position {} reused-server {} interleaved {} clock-script {}", jr.thread, plan.threads.get(jr.thread).map(|t| t.keys.as_str()).unwrap_or("?"), jr.pos, jr.reused_server, res.interleaved(i), !plan.clock.is_empty());
+        let off = plan.threads.get(jr.thread).and_then(|t| t.offsets.get(jr.pos)).copied().unwrap_or(0);
+        let env = format!("thread {} keys {} queue position {} reused-server {} handle-offset {} interleaved {} clock-script {}", jr.thread, plan.threads.get(jr.thread).map(|t| t.keys.as_str()).unwrap_or("?"), jr.pos, jr.reused_server, off, res.interleaved(i), !plan.clock.is_empty());
         v.extend(compare(job, reference, &jr.record, &env));
     }
     v
@@ -312,6 +422,10 @@ pub fn run(ctx: &mut Ctx, c: &Corpus) -> Vec<Replay> {
         }
         if collision {
             ctx.stats.inc("dim_name_collision");
+        }
+        if plan.threads[jr.thread].offsets.get(jr.pos).copied().unwrap_or(0) > 0 && !jr.reused_server {
+            ctx.stats.inc("dim_handle_layout");
+            dims += 1;
         }
         if !plan.clock.is_empty() {
             ctx.stats.inc("dim_clock");
